@@ -201,65 +201,66 @@ theorem fold_spec (key : String) (due : Int → Task → Bool) (armAt : Int → 
 
 -- ---------------------------------------------------------------- handlePendingTasks
 
-/-- the task is still pending (neither running nor finished as far as its ref says) -/
-def isPending (t : Task) : Bool := t.ref.finishTimestamp.isNone && t.ref.runningTimestamp.isNone
+/-- the task is still pending as far as the ref `r` says (neither running nor finished); `r` is the ref
+`handlePendingTasks` judges the task by, `pendRef rj t` -/
+def isPending (r : TaskRef) : Bool := r.finishTimestamp.isNone && r.runningTimestamp.isNone
 
-/-- the pending deadline of a task: creation time (Go zero time if unset) plus the timeout -/
-def pendDeadline (T : Int) (t : Task) : Int := (t.ref.creationTimestamp.getD zeroTime : Int) + T
+/-- the pending deadline of a task judged by `r`: creation time (Go zero time if unset) plus the timeout -/
+def pendDeadline (T : Int) (r : TaskRef) : Int := (r.creationTimestamp.getD zeroTime : Int) + T
 
 /-- one iteration of the loop of `handlePendingTasks` (pending timeout `T` nanoseconds) -/
-def pendStep (key : String) (T : Int) (acc : Sys × List Task) (t : Task) : Sys × List Task :=
-  if t.ref.finishTimestamp.isSome then acc
-  else if t.ref.runningTimestamp.isSome then acc
+def pendStep (key : String) (T : Int) (rj : Job) (acc : Sys × List Task) (t : Task) : Sys × List Task :=
+  if (pendRef rj t).finishTimestamp.isSome then acc
+  else if (pendRef rj t).runningTimestamp.isSome then acc
   else
-    if pendDeadline T t > acc.1.clock then (enqueueAfter acc.1 key (pendDeadline T t), acc.2)
+    if pendDeadline T (pendRef rj t) > acc.1.clock then (enqueueAfter acc.1 key (pendDeadline T (pendRef rj t)), acc.2)
     else if t.deletionTimestamp.isSome then acc
     else (acc.1, acc.2 ++ [t])
 
 /-- the task is reaped by the pending-timeout step at clock `clk` -/
-def pendDue (T : Int) (clk : Int) (t : Task) : Bool :=
-  isPending t && decide (pendDeadline T t ≤ clk) && t.deletionTimestamp.isNone
+def pendDue (rj : Job) (T : Int) (clk : Int) (t : Task) : Bool :=
+  isPending (pendRef rj t) && decide (pendDeadline T (pendRef rj t) ≤ clk) && t.deletionTimestamp.isNone
 
 /-- the deadline the pending-timeout step arms a timer for -/
-def pendArm (T : Int) (clk : Int) (t : Task) : Option Int :=
-  if isPending t && decide (clk < pendDeadline T t) then some (pendDeadline T t) else none
+def pendArm (rj : Job) (T : Int) (clk : Int) (t : Task) : Option Int :=
+  if isPending (pendRef rj t) && decide (clk < pendDeadline T (pendRef rj t)) then some (pendDeadline T (pendRef rj t)) else none
 
-theorem pendStep_spec (key : String) (T : Int) (s0 : Sys) (nd : List Task) (t : Task) :
-    StepSpec key (pendDue T) (pendArm T) s0 nd t (pendStep key T (s0, nd) t) := by
-  by_cases hp : isPending t = true
+theorem pendStep_spec (key : String) (T : Int) (rj : Job) (s0 : Sys) (nd : List Task) (t : Task) :
+    StepSpec key (pendDue rj T) (pendArm rj T) s0 nd t (pendStep key T rj (s0, nd) t) := by
+  by_cases hp : isPending (pendRef rj t) = true
   · have hp' := hp
     unfold isPending at hp'
     simp only [Bool.and_eq_true, Option.isNone_iff_eq_none] at hp'
-    by_cases hd : s0.clock < pendDeadline T t
-    · have he : pendStep key T (s0, nd) t = (enqueueAfter s0 key (pendDeadline T t), nd) := by
+    by_cases hd : s0.clock < pendDeadline T (pendRef rj t)
+    · have he : pendStep key T rj (s0, nd) t = (enqueueAfter s0 key (pendDeadline T (pendRef rj t)), nd) := by
         unfold pendStep; simp [hp'.1, hp'.2, hd]
-      have hnle : ¬ pendDeadline T t ≤ s0.clock := by omega
+      have hnle : ¬ pendDeadline T (pendRef rj t) ≤ s0.clock := by omega
       rw [he]
       refine ⟨enqueueAfter_ext _ _ _, rfl, fun h => h, by simp [pendDue, hnle], ?_, by simp [pendArm, hp, hd]⟩
       intro dl hdl
       simp only [pendArm, hp, hd, decide_true, Bool.and_self, if_true, Option.some.injEq] at hdl
       subst hdl
       exact enqueueAfter_timer _ _ _
-    · have hle : pendDeadline T t ≤ s0.clock := by omega
-      have hngt : ¬ pendDeadline T t > s0.clock := by omega
+    · have hle : pendDeadline T (pendRef rj t) ≤ s0.clock := by omega
+      have hngt : ¬ pendDeadline T (pendRef rj t) > s0.clock := by omega
       cases hdt : t.deletionTimestamp with
       | some dts =>
-        have he : pendStep key T (s0, nd) t = (s0, nd) := by
+        have he : pendStep key T rj (s0, nd) t = (s0, nd) := by
           unfold pendStep; simp [hp'.1, hp'.2, hngt, hdt]
         rw [he]
         exact ⟨Ext.refl s0, rfl, fun h => h, by simp [pendDue, hdt], by simp [pendArm, hd], fun _ => rfl⟩
       | none =>
-        have he : pendStep key T (s0, nd) t = (s0, nd ++ [t]) := by
+        have he : pendStep key T rj (s0, nd) t = (s0, nd ++ [t]) := by
           unfold pendStep; simp [hp'.1, hp'.2, hngt, hdt]
         rw [he]
         exact ⟨Ext.refl s0, rfl, fun h => h, by simp [pendDue, hp, hle, hdt], by simp [pendArm, hd], fun _ => rfl⟩
-  · have he : pendStep key T (s0, nd) t = (s0, nd) := by
+  · have he : pendStep key T rj (s0, nd) t = (s0, nd) := by
       unfold pendStep
       unfold isPending at hp
-      cases hf : t.ref.finishTimestamp with
+      cases hf : (pendRef rj t).finishTimestamp with
       | some f => simp
       | none =>
-        cases hr : t.ref.runningTimestamp with
+        cases hr : (pendRef rj t).runningTimestamp with
         | some r => simp
         | none => simp [hf, hr] at hp
     rw [he]
@@ -275,7 +276,7 @@ theorem handlePendingTasks_eq (s : Sys) (jo : JobObj) (rj : Job) (tasks : List T
       | some T =>
         if T ≤ 0 then (s, some rj)
         else
-          let r := tasks.foldl (pendStep (jobKey jo) T) (s, [])
+          let r := tasks.foldl (pendStep (jobKey jo) T rj) (s, [])
           if r.2.isEmpty = true then (r.1, some rj)
           else ((deleteTasks r.1 r.2 false).1,
                 if (deleteTasks r.1 r.2 false).2 = true then
@@ -286,16 +287,16 @@ theorem handlePendingTasks_eq (s : Sys) (jo : JobObj) (rj : Job) (tasks : List T
   | none => rfl
   | some T => rfl
 
-theorem mem_filter_pendDue (T clk : Int) (tasks : List Task) (t : Task) :
-    t ∈ tasks.filter (pendDue T clk) ↔
-      t ∈ tasks ∧ isPending t = true ∧ pendDeadline T t ≤ clk ∧ t.deletionTimestamp = none := by
+theorem mem_filter_pendDue (rj : Job) (T clk : Int) (tasks : List Task) (t : Task) :
+    t ∈ tasks.filter (pendDue rj T clk) ↔
+      t ∈ tasks ∧ isPending (pendRef rj t) = true ∧ pendDeadline T (pendRef rj t) ≤ clk ∧ t.deletionTimestamp = none := by
   rw [List.mem_filter]
   unfold pendDue
   cases t.deletionTimestamp <;> simp
 
 /-- the Job the pending-timeout step returns when its deletes succeed -/
 def pendMark (rj : Job) (T clk : Int) (tasks : List Task) : Job :=
-  markDeleted rj ((tasks.filter (pendDue T clk)).map (·.name)) (fun x => { x with deletedStatus := some pendingStatus })
+  markDeleted rj ((tasks.filter (pendDue rj T clk)).map (·.name)) (fun x => { x with deletedStatus := some pendingStatus })
 
 /-- `handlePendingTasks`: the calls it appends are non-forced pod deletes, exactly for the tasks
 that are still pending (no running, no finish timestamp), whose `creation + T` is not after the
@@ -305,15 +306,15 @@ theorem handlePendingTasks_ext (s : Sys) (jo : JobObj) (rj : Job) (tasks : List 
     ∃ l, Ext s (handlePendingTasks s jo rj tasks).1 l ∧
       (∀ c ∈ l, c.verb = "delete" ∧ c.res = "pods" ∧ c.force = false ∧
         ∃ T, getPendingTimeout rj s.cfg = some T ∧ 0 < T ∧
-          ∃ t ∈ tasks, t.name = c.name ∧ isPending t = true ∧ pendDeadline T t ≤ s.clock ∧
+          ∃ t ∈ tasks, t.name = c.name ∧ isPending (pendRef rj t) = true ∧ pendDeadline T (pendRef rj t) ≤ s.clock ∧
             t.deletionTimestamp = none) ∧
       ((getPendingTimeout rj s.cfg = none ∨ ∃ T, getPendingTimeout rj s.cfg = some T ∧ T ≤ 0) →
         handlePendingTasks s jo rj tasks = (s, some rj)) ∧
       (∀ T, getPendingTimeout rj s.cfg = some T → 0 < T →
-        (∀ t ∈ tasks, isPending t = true → pendDeadline T t ≤ s.clock → t.deletionTimestamp = none →
+        (∀ t ∈ tasks, isPending (pendRef rj t) = true → pendDeadline T (pendRef rj t) ≤ s.clock → t.deletionTimestamp = none →
           ∃ c ∈ l, c.name = t.name) ∧
-        (∀ t ∈ tasks, isPending t = true → s.clock < pendDeadline T t →
-          TimerBy (handlePendingTasks s jo rj tasks).1.q (jobKey jo) (dueAt s (pendDeadline T t))) ∧
+        (∀ t ∈ tasks, isPending (pendRef rj t) = true → s.clock < pendDeadline T (pendRef rj t) →
+          TimerBy (handlePendingTasks s jo rj tasks).1.q (jobKey jo) (dueAt s (pendDeadline T (pendRef rj t)))) ∧
         (∀ rj', (handlePendingTasks s jo rj tasks).2 = some rj' → rj' = pendMark rj T s.clock tasks) ∧
         (NoFault s → (handlePendingTasks s jo rj tasks).2 = some (pendMark rj T s.clock tasks))) := by
   rw [handlePendingTasks_eq]
@@ -331,20 +332,20 @@ theorem handlePendingTasks_ext (s : Sys) (jo : JobObj) (rj : Job) (tasks : List 
       omega
     · rw [if_neg hle]
       have hpos : 0 < T := by omega
-      obtain ⟨e1, p1, n1, a1, t1, _⟩ := fold_spec (jobKey jo) (pendDue T) (pendArm T) (pendStep (jobKey jo) T)
-        (pendStep_spec (jobKey jo) T) tasks s []
-      generalize List.foldl (pendStep (jobKey jo) T) (s, []) tasks = r at *
+      obtain ⟨e1, p1, n1, a1, t1, _⟩ := fold_spec (jobKey jo) (pendDue rj T) (pendArm rj T) (pendStep (jobKey jo) T rj)
+        (pendStep_spec (jobKey jo) T rj) tasks s []
+      generalize List.foldl (pendStep (jobKey jo) T rj) (s, []) tasks = r at *
       obtain ⟨s1, nd⟩ := r
       simp only [List.nil_append] at a1
       simp only at e1 p1 n1 t1
       subst a1
-      have htimer : ∀ s2 l2, Ext s1 s2 l2 → ∀ t ∈ tasks, isPending t = true → s.clock < pendDeadline T t →
-          TimerBy s2.q (jobKey jo) (dueAt s (pendDeadline T t)) := by
+      have htimer : ∀ s2 l2, Ext s1 s2 l2 → ∀ t ∈ tasks, isPending (pendRef rj t) = true → s.clock < pendDeadline T (pendRef rj t) →
+          TimerBy s2.q (jobKey jo) (dueAt s (pendDeadline T (pendRef rj t))) := by
         intro s2 l2 e2 t ht hp hlt
         exact e2.timers _ _ (t1 t ht _ (by simp [pendArm, hp, hlt]))
-      by_cases hemp : (tasks.filter (pendDue T s.clock)).isEmpty = true
+      by_cases hemp : (tasks.filter (pendDue rj T s.clock)).isEmpty = true
       · rw [if_pos hemp]
-        have hnil : tasks.filter (pendDue T s.clock) = [] := by simpa using hemp
+        have hnil : tasks.filter (pendDue rj T s.clock) = [] := by simpa using hemp
         have hmark : pendMark rj T s.clock tasks = rj := by
           unfold pendMark; rw [hnil]; exact markDeleted_nil _ _
         refine ⟨[], e1, by simp, ?_, ?_⟩
@@ -355,16 +356,16 @@ theorem handlePendingTasks_ext (s : Sys) (jo : JobObj) (rj : Job) (tasks : List 
           cases h
           refine ⟨?_, htimer s1 [] (Ext.refl s1), ?_, ?_⟩
           · intro t ht hp hd hdt
-            have : t ∈ tasks.filter (pendDue T s.clock) := (mem_filter_pendDue _ _ _ _).mpr ⟨ht, hp, hd, hdt⟩
+            have : t ∈ tasks.filter (pendDue rj T s.clock) := (mem_filter_pendDue _ _ _ _ _).mpr ⟨ht, hp, hd, hdt⟩
             rw [hnil] at this; cases this
           · intro rj' h; rw [hmark]; exact (Option.some.inj h).symm
           · intro _; rw [hmark]
       · rw [if_neg hemp]
-        obtain ⟨l, e2, hall, hcov, _, hnf⟩ := deleteTasks_ext s1 (tasks.filter (pendDue T s.clock)) false
+        obtain ⟨l, e2, hall, hcov, _, hnf⟩ := deleteTasks_ext s1 (tasks.filter (pendDue rj T s.clock)) false
         refine ⟨l, (e1.trans e2).cast (by simp), ?_, ?_, ?_⟩
         · intro c hc
           obtain ⟨hv, hr, hf, t, ht, hn, _⟩ := hall c hc
-          obtain ⟨h1, h2, h3, h4⟩ := (mem_filter_pendDue _ _ _ _).mp ht
+          obtain ⟨h1, h2, h3, h4⟩ := (mem_filter_pendDue _ _ _ _ _).mp ht
           exact ⟨hv, hr, hf, T, rfl, hpos, t, h1, hn, h2, h3, h4⟩
         · rintro (h | ⟨T', h, hle'⟩)
           · cases h
@@ -373,10 +374,10 @@ theorem handlePendingTasks_ext (s : Sys) (jo : JobObj) (rj : Job) (tasks : List 
           cases h
           refine ⟨?_, htimer _ l e2, ?_, ?_⟩
           · intro t ht hp hd hdt
-            refine hcov t ((mem_filter_pendDue _ _ _ _).mpr ⟨ht, hp, hd, hdt⟩) (Or.inr ?_)
+            refine hcov t ((mem_filter_pendDue _ _ _ _ _).mpr ⟨ht, hp, hd, hdt⟩) (Or.inr ?_)
             intro ts hts; rw [hdt] at hts; cases hts
           · intro rj' h
-            by_cases hok : (deleteTasks s1 (tasks.filter (pendDue T s.clock)) false).2 = true
+            by_cases hok : (deleteTasks s1 (tasks.filter (pendDue rj T s.clock)) false).2 = true
             · rw [if_pos hok] at h; exact (Option.some.inj h).symm
             · rw [if_neg hok] at h; cases h
           · intro hno
